@@ -111,6 +111,7 @@ func init() {
 			ruleServerID(c, "C14.")
 			ruleSIDInit(c, "C14.SID.INIT", ro)
 			ruleSIDOwner(c, "C14.SID.OWNER")
+			ruleSIDDuidAddr(c, "C14.SID.INIT")
 			c.R.Floor("C14.SID.OWNER", 2)
 			c.R.Floor("C14.SID.V6-MATRIX", 2)
 			c.R.Floor("C14.SID.V4-DROP", 1)
@@ -125,6 +126,7 @@ func init() {
 		Assume:  []string{"wire encoding of options (codec)", "value equality with the arguments beyond provenance is not decided"},
 		Run: func(c *Ctx) {
 			rulePoolRetain(c, "C17.POOL.NO-RETAIN") // an emitted option must not share storage that is recycled
+			runSetupFamily(c, "C17.SETUP.FAMILY")   // "in correct wire encoding": an accepted address is of the family its encoder slices
 			ruleArgsImmutable(c, "C17.CFG.ARGS-RO")
 			ruleParseOrder(c, "C17.CHAIN.PARSE-ORDER") // ... split into arguments exactly as written (strings.Fields of the item's value)
 			ruleChainLoad(c, "C17.CHAIN.LOAD")         // the configured values reach the plugin: every setup is called with its own item's arguments
